@@ -69,6 +69,11 @@ def extra_from_generated():
     if 'SettingParsable.lean' in have: out[('AnsiSetting', 'parsable')] = ('whole, with its cache', 'C15d.parsable_is_code')
     if 'SettingToList.lean' in have: out[('AnsiSetting', 'to_list')] = ('whole', 'C15d.to_list_is_code')
     if 'SettingInitialParam.lean' in have: out[('AnsiSetting', 'get_initial_param')] = ('whole', 'C15d.initial_param_is_code')
+    if 'ScrubFormatString.lean' in have: out[('_AnsiSettingPoint', '_scrub_ansi_format_string')] = ('whole', 'C14d.format_string_is_code')
+    if 'ScrubFormatInt.lean' in have: out[('_AnsiSettingPoint', '_scrub_ansi_format_int')] = ('whole', 'C14d.format_int_is_code')
+    if 'ParseRgbString.lean' in have: out[('_AnsiSettingPoint', '_parse_rgb_string')] = ('whole, with its three regular expressions', 'C14d.parse_rgb_is_code, C14c.rgb3_is_code')
+    if 'ScrubSettingsObjs.lean' in have: out[('_AnsiSettingPoint', '_scrub_ansi_settings')] = ('the instance for a list of AnsiSettings (the run-combining loop); the general recursive form is by hand', 'C14d.scrub_objs_is_code')
+    if 'SetAnsiDiff.lean' in have: out[('AnsiString', 'set_ansi_str')] = ('the block computing settings_to_remove / settings_to_apply', 'C02c.diff_is_code, C02c.step_uses_diff')
     if 'Tokenize.lean' in have: out[('ParsedAnsiControlSequenceString', '__init__')] = ('whole', 'C19c.tokenize_is_code')
     if 'FormattedStr.lean' in have: out[('ParsedAnsiControlSequenceString', 'formatted_str')] = ('whole', 'C19c.formatted_is_code')
     return out
